@@ -215,6 +215,12 @@ func (e *Exec) scenarioShape(path string, t types.Type, a string) ([]altFn, bool
 			delete(s.Fresh, r.Cell)
 			return SliceV{Arr: r, Len_: len(els), Cap: len(els)}
 		}, a)
+	case "emptyslice": // a non-nil slice of length 0
+		return one(func(s *State) Val {
+			r := s.alloc(&Agg{})
+			delete(s.Fresh, r.Cell)
+			return SliceV{Arr: r, Len_: 0, Cap: 0}
+		}, a)
 	case "atoms": // atoms(n): a slice of n unknown strings
 		n := 0
 		fmt.Sscan(args[0], &n)
